@@ -13,11 +13,7 @@
 #define MS_K 4
 #endif
 #define VF_MAXM 10
-#include "common.hpp"
-#include <amc/allocator.hpp>
-#include <amc/fixedcapacityvector.hpp>
-#include <amc/smallvector.hpp>
-#include <amc/vector.hpp>
+#include "vec_common.hpp"
 #include <amc/flatset.hpp>
 #include <amc/memory.hpp>
 typedef vf::MS_E E;
@@ -34,7 +30,35 @@ static void obs_exc(int k) { vf_obs(0xE0000000u | static_cast<uint32_t>(k)); }
 
 // Every observation sits in straight-line code with a fixed position in the transcript (values are padded, exception kinds and
 // allocator statistics are observed after the fact): the transcript index stays concrete, which keeps the miter tractable.
-#if MS_KIND <= 2
+#if MS_KIND == 4
+// swap2 between vectors of different size_type with capacities around the 8-bit maximum (states built directly, identically in
+// both configurations): the size_type overflow check of swap_sizetype has a separate pre-C++17 implementation
+#ifdef AMC_NONSTD_FEATURES
+typedef amc::vector<vf::B, amc::BasicAllocatorWrapper<vf::B, vf::LedgerBasic>, uint8_t> V8;
+typedef amc::vector<vf::B, amc::BasicAllocatorWrapper<vf::B, vf::LedgerBasic>, uint32_t> V32;
+typedef amc::BasicAllocatorWrapper<vf::B, vf::LedgerBasic> AB;
+VF_ACCESS_STD(Acc8, vf::B, AB, uint8_t)
+VF_ACCESS_STD(Acc32, vf::B, AB, uint32_t)
+extern "C" void h_script(void) {
+  {
+    V8 a; V32 b;
+    uint8_t c8 = nd8(); vf_assume(c8 >= 252); uint8_t s8 = nd8(3);
+    uint16_t c32 = static_cast<uint16_t>(250 + nd8(8)); uint8_t s32 = nd8(3);
+    vf::B *p8 = AB().allocate(c8); vf::B *p32 = AB().allocate(c32);
+    for (unsigned i = 0; i < 3; ++i) { p8[i] = nd8(); p32[i] = nd8(); }
+    vf::Acc8::capa(a) = c8; vf::Acc8::size(a) = s8; vf::Acc8::setDyn(a, p8);
+    vf::Acc32::capa(b) = c32; vf::Acc32::size(b) = s32; vf::Acc32::setDyn(b, p32);
+    uint8_t dir = nd8(1); int exc = 0;
+    try { if (dir) a.swap2(b); else b.swap2(a); } catch (const std::overflow_error &) { exc = 2; } catch (const std::out_of_range &) { exc = 3; }
+    obs_exc(exc);
+    vf_obs(static_cast<uint32_t>(a.size())); vf_obs(static_cast<uint32_t>(a.capacity())); vf_obs(static_cast<uint32_t>(b.size())); vf_obs(static_cast<uint32_t>(b.capacity()));
+    for (unsigned i = 0; i < 3; ++i) { vf_obs(i < a.size() ? static_cast<uint32_t>(a[static_cast<uint8_t>(i)]) : 0xFFFFu); vf_obs(i < b.size() ? static_cast<uint32_t>(b[i]) : 0xFFFFu); }
+  }
+  vf_obs(0x5A000000u | vf::g_alloc_calls); vf_obs(vf::blocks_live()); vf_obs(vf::g_abad);
+  vf_reach(1);
+}
+#endif
+#elif MS_KIND <= 2
 static void dump(const V &v) {
   vf_obs(0x51000000u | static_cast<uint32_t>(v.size())); vf_obs(0x52000000u | static_cast<uint32_t>(v.capacity())); vf_obs(v.empty());
   for (unsigned i = 0; i < VF_MAXM; ++i) vf_obs(i < v.size() ? static_cast<uint32_t>(Elem<E>::val(v[static_cast<V::size_type>(i)])) : 0xFFFFu);
